@@ -1,5 +1,5 @@
 /-
-  Value calculus for the vertex storage through the 2-D sews (used by C13d).
+  Value calculus for the vertex storage through the 2-D sews (used by C13d, C13e).
 
   `pos m d := m.att 0 (cellId m .vertex d)` is what `read_vertex(vertex_id(d))` returns: the coordinates of the
   origin of dart `d`.  On top of the cell-level theorems of C04 (`C04_oneSew2_cells`, `C04_oneUnsew2_cells`,
@@ -11,7 +11,9 @@
   * `sew1_pos`       : a 1-sew with `x = β2 l ≠ 0` unites the cells of `x` and `r`; every dart outside keeps its
                        `pos`, every dart of the two cells gets `pos x <|> pos r` when the two values agree or one is
                        undefined (`avg v v = v`, `merge_incomplete v = v`); with `β2 l = 0` nothing changes;
-  * `twoSewFree_pos` : a 2-sew of two darts without successor keeps every cell and every `pos`.
+  * `twoSewFree_pos` : a 2-sew of two darts without successor keeps every cell and every `pos`;
+  * `twoSewBoth_pos` : a 2-sew of two darts that both have a successor, whose two end points are different vertices:
+                       darts outside the four cells keep `pos`, each united pair gets the merge of its two values.
 -/
 import Honeycomb.Props.C04Cells2
 import Honeycomb.Lemmas.KernelWF2
